@@ -203,6 +203,8 @@ type Interp struct {
 
 	pendingRead *Rec
 	curFacts    []Fact
+	SliceOff    map[ast.Expr]*Term // root only: absolute input offset of every slice expression taken on the input
+	SliceFacts  map[ast.Expr][]Fact
 	noSites     bool
 	breaks      []*brk
 	continues   []*brk
@@ -317,7 +319,15 @@ func (in *Interp) readPath(st *State, p string, t types.Type) Val {
 	if i := strings.Index(p, "."); i >= 0 {
 		root = p[:i]
 	}
+	if root == p && isLocalObj(p) {
+		return ObjV{Path: p, Type: t} // the object itself (reached through a stored pointer)
+	}
 	zero := isLocalObj(root) && !strings.Contains(p, "[*]")
+	for _, d := range st.decoded {
+		if p == d || strings.HasPrefix(p, d+".") {
+			zero = false // filled by a child decoder: whatever was on the wire
+		}
+	}
 	switch u := t.Underlying().(type) {
 	case *types.Basic:
 		switch {
@@ -1028,6 +1038,22 @@ func (in *Interp) sliceExpr(st *State, x *ast.SliceExpr) Val {
 		nv := BufV{ID: b.ID, Off: b.Off.Add(lo), Hi: b.Hi}
 		if x.High != nil {
 			nv.Hi = b.Off.Add(in.evalInt(st, x.High))
+		}
+		if bo := st.bufs[b.ID]; bo != nil && bo.Origin == "param" {
+			root := in
+			for root.parent != nil {
+				root = root.parent
+			}
+			if root.SliceOff == nil {
+				root.SliceOff = map[ast.Expr]*Term{}
+				root.SliceFacts = map[ast.Expr][]Fact{}
+			}
+			root.SliceFacts[x] = append([]Fact(nil), st.facts...)
+			if old, ok := root.SliceOff[x]; !ok || old.Equal(nv.Off) {
+				root.SliceOff[x] = nv.Off
+			} else {
+				root.SliceOff[x] = Opq("varying offset")
+			}
 		}
 		in.site(st, b, "slice", nv.Off, nil, x)
 		if nv.Hi != nil {
